@@ -397,6 +397,11 @@ func c19randList(r *vf.Rand) []*c19coin {
 	list := make([]*c19coin, n)
 	vmode := r.Intn(5)
 	cmode := r.Intn(4)
+	if r.Chance(1, 8) {
+		// large magnitudes: value-ages beyond 2^53 (sums stay far below 2^63),
+		// where a detour through float64 loses the low bits
+		vmode, cmode = 5, 4
+	}
 	salt := r.Uint64()
 	for j := 0; j < n; j++ {
 		var v, cf int64
@@ -409,6 +414,8 @@ func c19randList(r *vf.Rand) []*c19coin {
 			v = int64(r.Uint64n(1_000_000_001))
 		case 3: // few distinct values: many ties
 			v = []int64{0, 7, 7, 50, 1000}[r.Intn(5)]
+		case 5:
+			v = 1_000_000_000 + int64(r.Uint64n(100_000_000_000))
 		default: // mixed magnitudes
 			v = int64(r.Uint64n(uint64(1) << uint(r.Intn(31))))
 		}
@@ -419,6 +426,8 @@ func c19randList(r *vf.Rand) []*c19coin {
 			cf = int64(r.Intn(7))
 		case 2:
 			cf = int64(r.Intn(1001))
+		case 4:
+			cf = 100_000 + int64(r.Intn(900_000))
 		default:
 			cf = []int64{0, 1, 1, 6, 144}[r.Intn(5)]
 		}
@@ -659,6 +668,14 @@ func c19coinSetCase(c *vf.Ctx, i int) {
 		if !c.Call("NewCoinSet", in, func() { cs = coinset.NewCoinSet(initial) }) {
 			return
 		}
+		// the caller reuses its slice afterwards: the set must not follow it
+		for j := range initial {
+			initial[j] = newCoin()
+		}
+		if n > 1 {
+			initial[0], initial[n-1] = initial[n-1], initial[0]
+		}
+		c.Inc("CoinSet/source_slice_overwritten_after_NewCoinSet")
 	}
 	if cs == nil {
 		c.Failf("NewCoinSet/nil", "%s: returned nil", in())
